@@ -30,10 +30,28 @@ def sym_run(built, drv, executor_setup=None, concrete=None):
         if kind == "in":
             if name in concrete:
                 vs = list(concrete[name])
+                ins[name] = vs
+                args.append(ex.alloc_words(vs, eb, name))
+            elif eb == 1 and cnt >= 8:
+                # byte buffer backed by 64-bit word variables (+ tail bytes)
+                nw = cnt // 8
+                words = [T.var("%s_w%d" % (name, i), 64) for i in range(nw)]
+                tail = [T.var("%s%d" % (name, i), 8) for i in range(8 * nw, cnt)]
+                oid = ex.new_obj(cnt, name)
+                for i, w in enumerate(words):
+                    ex.mem[oid].cells[8 * i] = (8, w)
+                for i, b in enumerate(tail):
+                    ex.mem[oid].cells[8 * nw + i] = (1, b)
+                from engines.llsym.llexec import Ptr as _Ptr
+                args.append(_Ptr(oid, 0))
+                ins[name] = [T.t_extract(words[i // 8], 8 * (i % 8), 8) for i in range(8 * nw)] + tail
+                if not hasattr(ex, "in_wide"):
+                    ex.in_wide = {}
+                ex.in_wide[name] = [(w, 64) for w in words] + [(b, 8) for b in tail]
             else:
                 vs = [T.var("%s%d" % (name, i), 8 * eb) for i in range(cnt)]
-            ins[name] = vs
-            args.append(ex.alloc_words(vs, eb, name))
+                ins[name] = vs
+                args.append(ex.alloc_words(vs, eb, name))
         elif kind == "out":
             p = ex.alloc_uninit(eb * cnt, name)
             outptr[name] = (p, eb, cnt)
@@ -43,6 +61,12 @@ def sym_run(built, drv, executor_setup=None, concrete=None):
             ins[name] = v
             args.append(v)
     ex.run(drv, args)
+    # byte buffers are first read as 64-bit little-endian words (reading bytes
+    # splits the memory cells; whole words keep the integer encoding small)
+    ex.wide = {}
+    for name, (p, eb, cnt) in outptr.items():
+        if eb == 1 and cnt % 8 == 0 and cnt:
+            ex.wide[name] = ex.read_words(p, cnt // 8, 8)
     for name, (p, eb, cnt) in outptr.items():
         outs[name] = ex.read_words(p, cnt, eb)
     return ex, ins, outs
@@ -55,9 +79,25 @@ def env_from_inputs(built, drv, inputs):
         if kind == "in":
             for i, w in enumerate(inputs[name]):
                 env["%s%d" % (name, i)] = w
+            if eb == 1 and cnt >= 8:
+                for j in range(cnt // 8):
+                    env["%s_w%d" % (name, j)] = int.from_bytes(bytes(inputs[name][8 * j:8 * j + 8]), "little")
         elif kind == "val":
             env[name] = inputs[name]
     return env
+
+
+def wide_in_form(enc, ex, name, ins):
+    """integer value (little-endian) of a byte-buffer input as a form"""
+    w = getattr(ex, "in_wide", {}).get(name)
+    if w is None:
+        return word_form(enc, ins[name], 8)
+    f = Lin(0)
+    sh = 0
+    for t, bits in w:
+        f = f + enc.form(t)[0].scale(1 << sh)
+        sh += bits
+    return f
 
 
 def validate(built, drv, outs, sampler, count=16):
@@ -112,6 +152,10 @@ def model_inputs(model, built, drv):
         if kind == "in":
             inputs[name] = [model.get("x_%s%d" % (name, i), model.get("%s%d" % (name, i), 0))
                             for i in range(cnt)]
+            if eb == 1 and cnt >= 8:
+                for j in range(cnt // 8):
+                    w = model.get("x_%s_w%d" % (name, j), model.get("%s_w%d" % (name, j), 0))
+                    inputs[name][8 * j:8 * j + 8] = list(int(w).to_bytes(8, "little"))
         elif kind == "val":
             inputs[name] = model.get("x_" + name, model.get(name, 0))
     return inputs
